@@ -16,6 +16,7 @@ func init() {
 			Assumptions: []string{"crypto/tls verifies the peer against RootCAs and the dialled name when InsecureSkipVerify is false and no custom verifier is installed", "gRPC uses the transport credentials it is given"},
 			Trusted:     []string{"go/packages", "go/types", "go/ssa", "crypto/tls", "google.golang.org/grpc"},
 			RuleDoc: map[string]string{
+				"R9.state":    "no memory of earlier calls: on the call tree only frozen package-level variables are touched (known exceptions listed with reasons), and no package-level object is handed out",
 				"R1.ciphers":  "cipher suites and MinVersion of the literal",
 				"R1.config":   "sources of RootCAs / GetClientCertificate; forbidden fields never stored",
 				"R2.insecure": "no insecure credentials / options outside tests",
